@@ -50,7 +50,7 @@ static int get_register_ebpf(const char *token)
     return (*token) - '0';
   }
 
-  if (memcmp(token, "10", 3) == 0) { return 10; }
+  if (strcmp(token, "10") == 0) { return 10; }
 
   return -1;
 }
